@@ -136,7 +136,12 @@ def correspondence(ctx):
                     continue
                 dst = out or (nm + ".zst" if mode == "c" else nm[:-4])
                 if mode != "t" and not stdout_ and rng.random() < 0.3:
-                    open(os.path.join(d, dst), "wb").write(b"previous content of " + dst.encode())
+                    if rng.random() < 0.35 and not os.path.lexists(os.path.join(d, dst)):
+                        # the existing destination is a symbolic link to somebody's file
+                        open(os.path.join(d, "precious-" + dst), "wb").write(b"precious content behind " + dst.encode())
+                        os.symlink("precious-" + dst, os.path.join(d, dst))
+                    elif not os.path.lexists(os.path.join(d, dst)):
+                        open(os.path.join(d, dst), "wb").write(b"previous content of " + dst.encode())
                     if dst not in exists:
                         exists.append(dst)
             # library verdict for decompression inputs
@@ -209,6 +214,18 @@ def correspondence(ctx):
                             ctx.violation("--sparse and --no-sparse outputs differ (or differ from the original) for %s: %d / %d / %d bytes" % (nm, len(a), len(b), len(content[nm[:-4]])), dict(kind="monitor", file=nm, dir=d))
             shutil.rmtree(d, ignore_errors=True)
         samples.append(dict(op=inv, code=" ".join(skel), model=" ".join(model)))
+        # ---- a write error on the output is a failed operation: non-zero exit status (single and concatenated inputs) ----
+        d = os.path.join(root, "full"); os.makedirs(d)
+        make_files(rng, d, ["a.dat", "b.dat"])
+        open(os.path.join(d, "a.dat"), "wb").write(b"some text that does not vanish " * 300); open(os.path.join(d, "b.dat"), "wb").write(bytes(range(256)) * 20)
+        subprocess.run([exe, "-q", "a.dat", "b.dat"], cwd=d, stdout=subprocess.DEVNULL, stderr=subprocess.DEVNULL)
+        for args in (["-q", "-c", "a.dat"], ["-q", "-c", "a.dat", "b.dat"], ["-q", "-d", "-c", "a.dat.zst"], ["-q", "-d", "-c", "a.dat.zst", "b.dat.zst"], ["-q", "-f", "a.dat", "b.dat", "-o", "/dev/full"]):
+            with open("/dev/full", "wb") as full:
+                r = subprocess.run([exe] + args, cwd=d, stdout=full, stderr=subprocess.PIPE)
+            ev += 1
+            if r.returncode == 0:
+                ctx.violation("output could not be written (device full) but the exit status is 0: zstd %s > /dev/full" % " ".join(args), dict(kind="monitor", invocation=args))
+        shutil.rmtree(d, ignore_errors=True)
         # ---------------- (3) kill points ----------------
         kills = 0
         kill_runs = []
